@@ -83,7 +83,7 @@ def failing(seed):
             resp.append(r)
         ops.append(o)
         # boundary keys: pick seeds whose key is 0x0000 / 0xFFFF now and then
-        want = rng.choice([None, None, 0, 0xFFFF])
+        want = rng.choice([None, None, 0, 0xFFFF, 7, 7])       # 7 = the user level the client puts into the same field of its first DM14
         sd = rng.choice([0, 1, 0xFFFF, 0xFFFE, rng.randint(0, 65535)])
         if want is not None:
             for cand in range(65536):
